@@ -23,12 +23,23 @@ def known():
     return known_findings(PID)
 
 
+def program_from_path(p):
+    """FILE.sam is module Main; a directory holds one module per file (a/b/C.sam is module a.b.C), entry Main"""
+    name = os.path.basename(p.rstrip("/"))
+    if os.path.isdir(p):
+        srcs = {}
+        for root, _, files in os.walk(p):
+            for f in sorted(files):
+                if f.endswith(".sam"):
+                    rel = os.path.relpath(os.path.join(root, f), p)[:-4]
+                    srcs[rel.replace(os.sep, ".")] = open(os.path.join(root, f)).read()
+        return {"origin": f"corpus:{name}", "entry": "Main", "sources": srcs}
+    return {"origin": f"corpus:{name[:-4]}", "entry": "Main", "sources": {"Main": open(p).read()}}
+
+
 def corpus_programs():
-    progs = []
-    for p in sorted(glob.glob(os.path.join(CORPUS, "*.sam"))):
-        name = os.path.basename(p)[:-4]
-        progs.append({"origin": f"corpus:{name}", "entry": "Main", "sources": {"Main": open(p).read()}})
-    return progs
+    return [program_from_path(p) for p in sorted(glob.glob(os.path.join(CORPUS, "*")))
+            if p.endswith(".sam") or os.path.isdir(p)]
 
 
 def have_generator():
@@ -116,7 +127,7 @@ def main_dev():
     d = outdir(PID)
     progs = []
     for p in sys.argv[1:]:
-        progs.append({"origin": p, "entry": "Main", "sources": {"Main": open(p).read()}})
+        progs.append(program_from_path(p))
     rows, lib, recs = observe(d, "dev", progs)
     verdicts, res = judge(d, "dev", rows, lib, int(os.environ.get("BUDGET", "300000")))
     for r in rows:
